@@ -1,44 +1,67 @@
 #!/usr/bin/env python3
-"""Applies every confirmed seeded change in /verif/seeded/<ID>-mN to /repo (git apply), runs all quick checks in
-parallel, records which obligations fail, and restores /repo (git checkout -- .). Writes seeded/RESULTS.json and
-prints a table. /repo must be clean."""
-import json, os, subprocess, sys, glob, re
+"""For every confirmed seeded change in /verif/seeded/<ID>-*mN: copies /repo's working tree (go.mod, go.sum and the
+package directories) to a scratch directory outside /repo and /verif, applies the change there (git apply), runs every
+quick check against the copy (s2lint -repo <copy>), records which obligations fail and removes the copy. /repo itself
+is only read. Writes seeded/RESULTS.json and prints a table. Names given on the command line restrict the run and are
+merged into the existing RESULTS.json. S2LINT selects the binary (default /verif/bin/s2lint); JOBS the parallelism."""
+import json, os, subprocess, sys, glob, re, shutil, tempfile
 from concurrent.futures import ThreadPoolExecutor
 
 PROPS = [c["property_id"] for c in json.load(open("/verif/MANIFEST.json"))["checks"]]
+S2LINT = os.environ.get("S2LINT", "/verif/bin/s2lint")
+JOBS = int(os.environ.get("JOBS", "6"))
+ENV = dict(os.environ, GOFLAGS="-mod=mod", GOPROXY="off", GOSUMDB="off", GOTOOLCHAIN="local")
+ENV.pop("GOWORK", None)
 
-def run_prop(p):
-    r = subprocess.run(["/verif/bin/s2lint", "-prop", p, "-tier", "quick"], capture_output=True, text=True)
+def run_prop(repo, p):
+    r = subprocess.run([S2LINT, "-prop", p, "-tier", "quick", "-repo", repo, "-noreplay"], capture_output=True, text=True, env=ENV)
     fails = re.findall(r"^FAIL (\S+)", r.stdout, re.M)
     return p, r.returncode, fails
+
+def copy_tree(dst):
+    os.makedirs(dst)
+    for name in ["go.mod", "go.sum", "r1", "r2", "r3", "s1", "s2"]:
+        src = os.path.join("/repo", name)
+        if os.path.isdir(src):
+            shutil.copytree(src, os.path.join(dst, name))
+        else:
+            shutil.copy(src, dst)
+
+def one_seed(d):
+    name = os.path.basename(d)
+    prop = name.split("-")[0]
+    root = tempfile.mkdtemp(prefix="s2seed-")
+    tree = os.path.join(root, "tree")
+    try:
+        copy_tree(tree)
+        if subprocess.run(["git", "apply", d + "/patch.diff"], cwd=tree, capture_output=True).returncode != 0:
+            return name, {"error": "patch does not apply"}
+        rs = [run_prop(tree, p) for p in PROPS]
+    finally:
+        shutil.rmtree(root, ignore_errors=True)
+    det = {p: fails for p, rc, fails in rs if rc != 0}
+    return name, {"property": prop, "detected_by_own_property": prop in det, "detected_by": det}
 
 def main():
     if subprocess.run("git -C /repo diff --quiet", shell=True).returncode != 0:
         print("repo dirty"); sys.exit(2)
-    # baseline must be clean
-    with ThreadPoolExecutor(8) as ex:
-        base = list(ex.map(run_prop, PROPS))
+    with ThreadPoolExecutor(JOBS) as ex:
+        base = list(ex.map(lambda p: run_prop("/repo", p), PROPS))
     for p, rc, fails in base:
         if rc != 0:
             print("BASELINE FAILS", p, fails); sys.exit(1)
+    only = sys.argv[1:]
+    dirs = [d for d in sorted(glob.glob("/verif/seeded/C*-*m[0-9]")) if not only or os.path.basename(d) in only]
     results = {}
-    only = sys.argv[1:] 
-    for d in sorted(glob.glob("/verif/seeded/C*-*m[0-9]")):
-        name = os.path.basename(d)
-        if only and name not in only: continue
-        prop = name.split("-")[0]
-        if subprocess.run(["git", "-C", "/repo", "apply", d + "/patch.diff"]).returncode != 0:
-            results[name] = {"error": "patch does not apply"}; continue
-        try:
-            with ThreadPoolExecutor(8) as ex:
-                rs = list(ex.map(run_prop, PROPS))
-        finally:
-            subprocess.run("git -C /repo checkout -- .", shell=True)
-        det = {p: fails for p, rc, fails in rs if rc != 0}
-        results[name] = {"property": prop, "detected_by_own_property": prop in det, "detected_by": det}
-        own = det.get(prop, [])
-        others = sorted(k for k in det if k != prop)
-        print(f"{name:8s} own={'YES' if prop in det else 'no ':3s} {', '.join(own)[:110]}  others={others}")
+    with ThreadPoolExecutor(JOBS) as ex:
+        for name, r in ex.map(one_seed, dirs):
+            results[name] = r
+            if "error" in r:
+                print(f"{name:8s} ERROR {r['error']}"); continue
+            det, prop = r["detected_by"], r["property"]
+            own = det.get(prop, [])
+            others = sorted(k for k in det if k != prop)
+            print(f"{name:8s} own={'YES' if prop in det else 'no ':3s} {', '.join(own)[:110]}  others={others}", flush=True)
     if only and os.path.exists("/verif/seeded/RESULTS.json"):
         merged = json.load(open("/verif/seeded/RESULTS.json"))
         merged.update(results)
